@@ -1304,3 +1304,19 @@ package objects
 //@   loop 1: exhaustive
 //@   at[notdup] append potentialVictims#1: assert elem == victim && !(victim.allocationKey in seen)
 //@   at[kept] append victims#1: assert elem == victim
+
+// every child that is not stopped and has pending requests is offered to the scheduler - a draining queue keeps running
+// its existing applications - and the fair-max list stays aligned with the queue list
+//@ spec abstract qstopped(q *Queue) bool
+//@ spec abstract qpending(q *Queue) bool
+//@ func (sq *Queue) sortQueues() (sorted []*Queue)
+//@   props C16 C19
+//@   sweep
+//@   mode nopanic=off
+//@   loop 1: exhaustive
+//@   at[stopped] call objects.Queue.IsStopped#1 after: assume ret <==> qstopped(arg0)
+//@   at[onlystopped] call objects.Queue.IsStopped#1: assert arg0 == child
+//@   at[pending] call resources.StrictlyGreaterThanZero#1 after: assume ret <==> qpending(child)
+//@   loop 1: each !qstopped(child) && qpending(child) ==> len(sortedQueues) == iter(len(sortedQueues)) + 1 && len(sortedMaxFairResources) == iter(len(sortedMaxFairResources)) + 1
+//@   loop 1: each len(sortedQueues) - iter(len(sortedQueues)) == len(sortedMaxFairResources) - iter(len(sortedMaxFairResources))
+//@   at[aligned] append sortedQueues#1: assert elem == child
